@@ -427,6 +427,47 @@ def dtype_cases():
             R.check("annotation of any dtype survives copy / compare / index / concatenate / stack / assignment", key, inp, f)
 
 
+def stack_bonds_case(variant):
+    """stack(): the models share one bond list - the one of the FIRST array (documented); later arrays may carry
+    another one or none.  The stack, its models and its atom selections connect the atoms as the first array does."""
+    a, m = build(False)
+    others = []
+    for k in range(2):
+        o = a.copy()
+        o.coord += k + 1
+        if variant == "later arrays without bonds":
+            o.bonds = None
+        elif variant == "later arrays with fewer bonds":
+            o.bonds = struc.BondList(N, np.array(sorted(m.bonds))[: 1 + k])
+        elif variant == "later arrays with more bonds":
+            bl = o.bonds.copy()
+            bl.add_bond(0, N - 1, 1)
+            o.bonds = bl
+        others.append(o)
+    st = struc.stack([a] + others)
+    exp = set(m.bonds)
+    got = {(int(x), int(y), int(t)) for x, y, t in st.bonds.as_array()} if st.bonds is not None else None
+    if got != exp:
+        return f"stack.bonds = {None if got is None else sorted(got)}, the first array has {sorted(exp)}"
+    for k in range(3):
+        g = st[k].bonds
+        gk = {(int(x), int(y), int(t)) for x, y, t in g.as_array()} if g is not None else None
+        if gk != exp:
+            return f"model {k} of the stack has bonds {None if gk is None else sorted(gk)}"
+    sub = st[:, [0, 1]]
+    gs = {(int(x), int(y), int(t)) for x, y, t in sub.bonds.as_array()} if sub.bonds is not None else None
+    if gs != {(x, y, t) for x, y, t in exp if x < 2 and y < 2}:
+        return f"stack[:, [0, 1]] has bonds {gs}"
+    if {(int(x), int(y), int(t)) for x, y, t in a.bonds.as_array()} != exp:
+        return "stack() changed the bonds of the first array"
+    return None
+
+
+for variant in ("same bonds", "later arrays without bonds", "later arrays with fewer bonds", "later arrays with more bonds"):
+    R.check("stack(): one bond list for all models, that of the first array", "stack: bonds of the first array", {"variant": variant},
+            lambda variant=variant: stack_bonds_case(variant))
+
+
 depth = 3 if R.thorough else 2
 for st in (False, True):
     run_histories(st, depth)
